@@ -142,11 +142,14 @@ def run_tokenizer_history(chk: Check, prog: Program) -> None:
                 out.append(repr(t))
         return out
 
-    for n1 in (1, 2):
-        def body(it: Interp, n1=n1):
+    # short texts over digits / letters / operators / padding / an unsupported character, and longer ones over the letters
+    # of the function name, another letter and an opening parenthesis (function calls, letter runs)
+    fn_alphabet = frozenset("sgnx(")
+    for n1, n2, alpha in ((1, 2, alphabet), (2, 2, alphabet), (4, 4, fn_alphabet), (5, 5, fn_alphabet)):
+        def body(it: Interp, n1=n1, n2=n2, alpha=alpha):
             used = it.instantiate(tok_cls, [], {})
-            first = [it.new_char(alphabet) for _ in range(n1)]
-            second = [it.new_char(alphabet) for _ in range(2)]
+            first = [it.new_char(alpha) for _ in range(n1)]
+            second = [it.new_char(alpha) for _ in range(n2)]
             try:
                 it.call_function(m, [used, SymStr(first)], {})
                 it.first = "returned"
@@ -164,7 +167,7 @@ def run_tokenizer_history(chk: Check, prog: Program) -> None:
             return a, b
         for p in explore(prog, body, {"max_updepth": 0, "time_budget": 120}, max_paths=20000):
             it = p.interp
-            label = f"tokenize(len {n1}) [{getattr(it, 'first', '?')}] then tokenize(len 2): {p.cond[-160:]}"
+            label = f"tokenize(len {n1}) [{getattr(it, 'first', '?')}] then tokenize(len {n2}): {p.cond[-160:]}"
             if p.outcome != "return":
                 chk.undecided("C12.R6", "C12.R6:bound", label, f"{p.outcome} {p.exc or p.note}", m.where)
                 continue
